@@ -53,8 +53,8 @@ CLAIMS["C16"] = dict(
     text=("Deductive proof of the bounded FIFO's monitor invariant and operation contracts: for every capacity and every state satisfying the "
           "invariant (occupied slots are exactly those at distance < count from the read index), New accepts exactly powers of two, Push refuses "
           "exactly when full and otherwise stores the item at the write position leaving every other slot and the read index unchanged, Pull "
-          "removes the item at the read position or reports closed, Close empties every slot; each operation re-establishes the invariant."),
-    note=TRUST + "Sequential proof per critical section: the step from the monitor invariant to linearizability is the classical argument, not machine-checked; lost wake-ups, 'nothing runs after Close returned' at the asyncprocessor level and producer/closer races are not decided. After cond.Wait the monitor invariant is re-assumed.",
+          "removes the item at the read position or reports closed, Close empties every slot; each operation re-establishes the invariant; every successful Push and every Close signals the condition variable exactly once (call counter), so a waiting consumer is woken by each of them."),
+    note=TRUST + "Sequential proof per critical section: the step from the monitor invariant to linearizability is the classical argument, not machine-checked; that a signalled consumer actually runs (scheduling), 'nothing runs after Close returned' at the asyncprocessor level and producer/closer races are not decided. After cond.Wait the monitor invariant is re-assumed.",
     design="DESIGN.md section 4, C16 and appendix C.2",
 )
 
@@ -119,8 +119,9 @@ CLAIMS["C02"] = dict(
           "session state is one of the table's transitions, taken from the state the request found and for the method of the request; a request whose "
           "method is illegal in the current state gets an error and status 400 and leaves the state unchanged; every exit returns a state related to the "
           "entry state by at most one legal transition; checkState returns nil exactly when the state is in the allowed set (map membership modelled). "
-          "That no other function writes the state field is checked syntactically over the whole module on every run."),
-    note=TRUST + ABSTR + "One response per request, CSeq echo, request sequences, timeouts, keep-alive expiry and 'ends exactly once' are NOT decided. Handlers are assumed not to re-enter the session synchronously.",
+          "That no other function writes the state field is checked syntactically over the whole module on every run. "
+          "ServerConn.handleRequestOuter writes exactly one response on every path (call counter), whatever the handlers return."),
+    note=TRUST + ABSTR + "The CSeq echo (a user hook may rewrite the response), request sequences, timeouts, keep-alive expiry and 'ends exactly once' are NOT decided. Handlers are assumed not to re-enter the session synchronously.",
     design="DESIGN.md section 4, C02",
 )
 CLAIMS["C17"] = dict(
